@@ -96,7 +96,7 @@ fn main() {
                     // (rounding noise in -J^T r amplified by 1/lambda): whether it does depends on the
                     // summation order
                     let drift = matches!(e.error, NonLinearSystemError::DidNotConverge) && base.outcome.is_unsatisfied() && base.analysis.is_underconstrained();
-                    out.push(Violation { property: "C12", what: format!("a permuted request list fails ({:?}) while the original succeeds", e.error), signature: if drift { "drift-on-inconsistent-rank-deficient".into() } else { "perm-fails".into() }, system: Some(sys.clone()), extra: format!("{order:?}") });
+                    out.push(Violation { property: "C12", what: format!("a permuted request list fails ({:?}) while the original succeeds", e.error), signature: if drift { "drift-on-inconsistent-rank-deficient".into() } else if matches!(e.error, NonLinearSystemError::FaerSvd(_)) { "svd-no-convergence-under-reordering".into() } else { "perm-fails".into() }, system: Some(sys.clone()), extra: format!("{order:?}") });
                     continue;
                 }
             };
@@ -144,7 +144,7 @@ fn main() {
                 Ok(o) => o,
                 Err(e) => {
                     let drift = matches!(e.error, NonLinearSystemError::DidNotConverge) && base.outcome.is_unsatisfied() && base.analysis.is_underconstrained();
-                    out.push(Violation { property: "C12", what: format!("a renumbered system fails ({:?}) while the original succeeds", e.error), signature: if drift { "drift-on-inconsistent-rank-deficient".into() } else { "renumber-fails".into() }, system: Some(sys.clone()), extra: format!("{pi:?}") });
+                    out.push(Violation { property: "C12", what: format!("a renumbered system fails ({:?}) while the original succeeds", e.error), signature: if drift { "drift-on-inconsistent-rank-deficient".into() } else if matches!(e.error, NonLinearSystemError::FaerSvd(_)) { "svd-no-convergence-under-reordering".into() } else { "renumber-fails".into() }, system: Some(sys.clone()), extra: format!("{pi:?}") });
                     continue;
                 }
             };
